@@ -472,6 +472,34 @@ def mark_loops(body, marks, what=''):
 
 
 # ---------------------------------------------------------------- DEFER / SCOPED_LOCK lowering
+def lower_refs(body, what=''):
+    """`auto& NAME = EXPR;`  ->  `__auto_type NAME_p_ = &(EXPR);` and every later use of NAME in the enclosing block becomes
+    `(*NAME_p_)`: a C++ reference to an lvalue is an alias; the pointer keeps the aliasing (writes through it reach EXPR's object)."""
+    pat = re.compile(r'\b(?:const\s+)?auto\s*&\s*([A-Za-z_]\w*)\s*=\s*([^;]+);')
+    while True:
+        m = pat.search(body)
+        if not m:
+            return body
+        name, expr = m.group(1), m.group(2).strip()
+        # enclosing block end
+        depth = 0
+        i = m.end()
+        end = len(body)
+        while i < len(body):
+            c = body[i]
+            if c == '{':
+                depth += 1
+            elif c == '}':
+                if depth == 0:
+                    end = i
+                    break
+                depth -= 1
+            i += 1
+        rest = body[m.end():end]
+        rest = re.sub(r'(?<![\w.>])%s\b' % re.escape(name), '(*%s_p_)' % name, rest)
+        body = body[:m.start()] + '__auto_type %s_p_ = &(%s);' % (name, expr) + rest + body[end:]
+
+
 def lower_block_scoped(body, items, rettype='void', what=''):
     """Mechanical lowering of a C++ scoped object declared INSIDE a nested block (typically a loop body):
     items = [(decl_regex, ctor_text, dtor_text)].  `decl_regex` matches the declaration statement (groups usable in the
